@@ -44,12 +44,14 @@ TFdHist ==
 
 TMoment ==
     /\ IsEvent("moment")
-    /\ MomentCell(Ev.N, Ev.scale, Ev.mass, Ev.grid) /\ Ev.grid \in GridKinds
+    /\ MomentCell(Ev.N, Ev.scale, Ev.mass, Ev.grid, Ev.bM, Ev.bN) /\ Ev.grid \in GridKinds /\ Ev.bM \in Bases /\ Ev.bN \in Bases
     /\ Ev.out = "ok"
     \* identification table: row = moment computed by the code, column = weight the deviation was built for
     /\ \A m \in Moments, w \in Moments :
-         IF Weight[m] = Weight[w] THEN Ev.table[m][w] >= 11 ELSE Ev.table[m][w] <= 7
-    /\ Ev.dLinear >= 12                                  \* moments are linear in the deviation
+         \* 11 digits; 8 when the deviation had to be handed over as Chebyshev coefficients along the momentum axes: the
+         \* harness inverts the node-value matrix for that, and the test deviations span many decades (measured 9 at worst)
+         IF Weight[m] = Weight[w] THEN Ev.table[m][w] >= (IF Ev.bN = "Chebyshev" THEN 8 ELSE 11) ELSE Ev.table[m][w] <= 7
+    /\ Ev.dLinear >= (IF Ev.bN = "Chebyshev" THEN 9 ELSE 12)   \* moments are linear in the deviation (same conditioning remark)
     /\ Ev.dTmunu >= 12                                   \* assembled T30, T33 = boosted direct integrals
 
 TDone == job.active /\ Done /\ UNCHANGED <<tid, l>>
